@@ -37,19 +37,20 @@ type timer struct {
 }
 
 func Run(k *report.Check) {
-	k.Rule = "every sequence up to the depth over SetTimer(key in {a,b,c}, t in {1,2,3,5}) (repeats allowed), AdvanceWatermark(upstream, w in {1,2,3,4,9}, non-decreasing per upstream) and checkpoint+restore, with 1 or 2 upstreams, 2 key groups (two subject keys share one) and per-key-group cache capacity of 0, 1, 2, 3 or unlimited timers; the real TimerRegistry/TimerStore over a real dkv.DB are compared with a set of pending (key,t) pairs: each advance must yield exactly the pending timers with t <= min(upstream watermarks), once, in non-decreasing t. States (pending set, upstream watermarks, cache contents and completeness flag per key group) are deduplicated. non-trivial = distinct states in which some pending timer is held only in the database (evicted or not yet loaded)"
+	k.Rule = "every sequence up to the depth over SetTimer(key in {a,b,c}, t in {1,2,3,5}) (repeats allowed), AdvanceWatermark(upstream, w in {1,2,3,4,9}, non-decreasing per upstream) and checkpoint+restore, with 1 or 2 upstreams, an operator range starting at key group 0 or 1, subject keys in two key groups (two of them share one) and per-key-group cache capacity of 0, 1, 2, 3 or unlimited timers; the real TimerRegistry/TimerStore over a real dkv.DB are compared with a set of pending (key,t) pairs: each advance must yield exactly the pending timers with t <= min(upstream watermarks), once, in non-decreasing t. States (pending set, upstream watermarks, cache contents and completeness flag per key group) are deduplicated. non-trivial = distinct states in which some pending timer is held only in the database (evicted or not yet loaded)"
 	k.Assumptions = []string{"watermarks of one upstream do not decrease (C11); timestamps at or after the epoch", "the database itself is C07/C08's subject: a large memtable keeps it out of the picture here"}
 	k.Budget(100, 900)
 	p := params{depth: k.Pick(5, 7)}
 	k.Explore(fmt.Sprintf("timers/d=%d", p.depth), mc.Config{}, p, body)
 }
 
-// pickKeySpace finds a key-group count for which a and c share a group and b has another.
+// pickKeySpace finds a key-group count for which a and c share a group, b has another and no
+// subject falls into group 0 (so that the operator's range may start above 0).
 func pickKeySpace() (*partitioning.KeySpace, int) {
 	for g := 2; g < 64; g++ {
 		ks := partitioning.NewKeySpace(g, 1)
 		a, b, c := ks.KeyGroup([]byte("a")), ks.KeyGroup([]byte("b")), ks.KeyGroup([]byte("c"))
-		if a == c && a != b {
+		if a == c && a != b && a >= 1 && b >= 1 {
 			return ks, g
 		}
 	}
@@ -71,12 +72,13 @@ type world struct {
 	eff     int64 // effective operator watermark as the registry knows it; -1 = none yet
 	nextCk  uint64
 	gen     int
+	lo      int // first key group of the operator's range
 }
 
 func (w *world) open(handles []recovery.CheckpointHandle) {
 	w.gen++
 	w.db = dkv.Open(dkv.DBOptions{FileSystem: w.fs.WithWorkingDir(fmt.Sprintf("/g%d", w.gen)), MemTableSize: 1 << 20}, handles)
-	rng := partitioning.KeyGroupRange{Start: 0, End: groups}
+	rng := partitioning.KeyGroupRange{Start: w.lo, End: groups}
 	w.store = operator.NewTimerStore(w.db, keySpace, rng, w.cache)
 	w.reg = operator.NewTimerRegistry(w.store, w.ups)
 	w.wm = map[string]int64{}
@@ -96,7 +98,7 @@ func (w *world) stateKey() string {
 	for _, u := range w.ups {
 		ws = append(ws, fmt.Sprint(w.wm[u]))
 	}
-	return fmt.Sprint(w.cache, ps, ws, w.eff, w.store.VerifDump())
+	return fmt.Sprint(w.cache, w.lo, ps, ws, w.eff, w.store.VerifDump())
 }
 
 func body(c *mc.Ctx) {
@@ -107,8 +109,11 @@ func body(c *mc.Ctx) {
 	w.ups = []string{"s1", "s2"}[:nups]
 	// the store divides the capacity evenly among the key groups; a capacity of n timers per
 	// group needs n*12+1 bytes (the cache is "full" at >= max)
-	w.cache = uint64(groups * (ct*12 + 1))
-	c.Op("[upstreams=%d cache=%d timers/group]", nups, ct)
+	if c.Choose(2) == 1 { // the operator is not the first of its job: its range starts above group 0
+		w.lo = 1
+	}
+	w.cache = uint64((groups - w.lo) * (ct*12 + 1))
+	c.Op("[upstreams=%d cache=%d timers/group, key groups %d..%d]", nups, ct, w.lo, groups-1)
 	w.open(nil)
 	for step := 0; step < p.depth; step++ {
 		if c.Fresh() && c.Seen(w.stateKey(), p.depth-step) {
